@@ -78,7 +78,7 @@ theorem NetInv.at_idlNewVar {n : Net} {orig L : Cnf} {fr : List Frame} (h : NetI
       exact ⟨by omega, by omega, o3, o4⟩
     · show Undo.SortedK (Dl.newVar idlOps n.idl).2.distConstr
       rw [e3]; exact hb.idl.sorted
-  · exact ⟨h.reg.lra, by show ∀ c ∈ (Dl.newVar idlOps n.idl).2.varDists, _; rw [e2]; exact h.reg.idl, h.reg.rdl, h.reg.good⟩
+  · exact ⟨h.reg.lra, by show ∀ c ∈ (Dl.newVar idlOps n.idl).2.varDists, _; rw [e2]; exact h.reg.idl, h.reg.rdl, h.reg.good, h.reg.aw⟩
 
 theorem NetInv.at_idlNewDistance {n : Net} {orig L : Cnf} {fr : List Frame} (h : NetInv n orig L fr)
     (hroot : n.sat.trailLim = []) (f g : Nat) (w : Int)
@@ -141,7 +141,7 @@ theorem NetInv.at_idlNewDistance {n : Net} {orig L : Cnf} {fr : List Frame} (h :
       · rw [e]; exact hb.idl.sorted
       · rw [e]; exact hb.idl.sorted
   · refine ⟨fun e he => Nat.lt_of_lt_of_le (h.reg.lra e he) hlen, ?_, fun c hc => Nat.lt_of_lt_of_le (h.reg.rdl c hc) hlen,
-      h.reg.good⟩
+      h.reg.good, fun x b hb => Nat.lt_of_lt_of_le (h.reg.aw x b hb) hlen⟩
     intro c hc
     show c.b < (Dl.newDistance idlOps n.sat n.idl f g w).2.1.vals.length
     rcases hcases with ⟨e1, e⟩ | ⟨e1, e, _⟩
@@ -185,7 +185,7 @@ theorem NetInv.at_rdlNewVar {n : Net} {orig L : Cnf} {fr : List Frame} (h : NetI
     · intro c hc
       have hc' : c ∈ n.rdl.varDists := by rw [← e2]; exact hc
       exact hb.rdl.epsC c hc'
-  · exact ⟨h.reg.lra, h.reg.idl, by show ∀ c ∈ (Dl.newVar rdlOps n.rdl).2.varDists, _; rw [e2]; exact h.reg.rdl, h.reg.good⟩
+  · exact ⟨h.reg.lra, h.reg.idl, by show ∀ c ∈ (Dl.newVar rdlOps n.rdl).2.varDists, _; rw [e2]; exact h.reg.rdl, h.reg.good, h.reg.aw⟩
 
 theorem NetInv.at_rdlNewDistance {n : Net} {orig L : Cnf} {fr : List Frame} (h : NetInv n orig L fr)
     (hroot : n.sat.trailLim = []) (f g : Nat) (w : IR)
@@ -255,7 +255,7 @@ theorem NetInv.at_rdlNewDistance {n : Net} {orig L : Cnf} {fr : List Frame} (h :
       · exact hb.rdl.epsC c hc'
       · exact hw2
   · refine ⟨fun e he => Nat.lt_of_lt_of_le (h.reg.lra e he) hlen, fun c hc => Nat.lt_of_lt_of_le (h.reg.idl c hc) hlen, ?_,
-      h.reg.good⟩
+      h.reg.good, fun x b hb => Nat.lt_of_lt_of_le (h.reg.aw x b hb) hlen⟩
     intro c hc
     show c.b < (Dl.newDistance rdlOps n.sat n.rdl f g w).2.1.vals.length
     rcases hmem c hc with hc' | ⟨rfl, e1⟩
@@ -334,7 +334,10 @@ theorem NetInv.at_lraNewVar {n : Net} {orig L : Cnf} {fr : List Frame} (h : NetI
         · split
           · exact htrue
           · split <;> exact htrue
-  · exact ⟨h.reg.lra, h.reg.idl, h.reg.rdl, Lra.newVar_good h.reg.good⟩
+  · refine ⟨h.reg.lra, h.reg.idl, h.reg.rdl, Lra.newVar_good h.reg.good, fun x b hb => ?_⟩
+    have hb' : b ∈ (n.lra.aWatches ++ [[]]).getD x [] := hb
+    rw [Lra.getD_append_nil] at hb'
+    exact h.reg.aw x b hb'
 
 end Net
 end Oratio
